@@ -8,6 +8,70 @@ import framework as fw
 import genrun
 
 
+EXACT_TEXTS = ["{[] [$]CC[$]; [$]C []}|gauss(150, 10)|", "N#C{[<] [>]CC[<] [>]}|gauss(150, 10)|F", "C{[$] [$]CC(C)[$] [$]}|uniform(100, 200)|O",
+               "[H]{[>] [<]COC[>] [<]}|gauss(200, 20)|F", "OC{[<] [>]C(F)C[<], [>]CC[<] [>]}|gauss(200, 20)|N"]
+
+
+def exact_hit_probe(rep, quick):
+    """The boundary of the stop rule at the implementation's own floats: the drawn target is set to EXACTLY the mass the first k units add (the
+    number stochastic.py itself computes, recorded by a proxy around its rdDescriptors).  Growth continues while the added mass does not exceed
+    the target, so k + 1 units must be attached.  No rational model is involved: both runs use the same float arithmetic."""
+    import numpy as np
+    import gbigsmiles
+    import gbigsmiles.stochastic as st
+    from gbigsmiles.stochastic import Stochastic
+
+    class Rec:
+        def __init__(self, orig):
+            self.orig, self.vals = orig, []
+
+        def HeavyAtomMolWt(self, m):
+            v = self.orig.HeavyAtomMolWt(m)
+            self.vals.append(v)
+            return v
+
+        def __getattr__(self, n):
+            return getattr(self.orig, n)
+
+    def run(text, seed, target):
+        mol = gbigsmiles.Molecule(text)
+        for e in mol._elements:
+            if isinstance(e, Stochastic):
+                e.distribution.draw_mw = (lambda rng=None, T=target: T)
+        rec = Rec(st.rdDescriptors)
+        st.rdDescriptors = rec
+        try:
+            with fw.time_limit(30):
+                g = mol.generate(rng=np.random.default_rng(seed))
+        finally:
+            st.rdDescriptors = rec.orig
+        return g, rec.vals
+
+    n = 0
+    for ti, text in enumerate(EXACT_TEXTS):
+        for seed in ((3,) if quick else (3, 4, 5, 6)):
+            try:
+                _, vals = run(text, seed, 115.0)      # a first run to learn the masses after each unit
+            except Exception:
+                continue
+            added = [v - vals[0] for v in vals[1:]]
+            for k in range(1, min(4, len(added))):
+                T = added[k - 1]
+                try:
+                    g, vals2 = run(text, seed, T)
+                except Exception as e:  # noqa
+                    rep.fail("oracle", f"generation with the target set to the mass of {k} unit(s) raised {type(e).__name__}", {"text": text, "seed": seed, "mode": "exact_hit", "k": k},
+                             expected="a molecule", observed=fw.exc_class(e))
+                    continue
+                n += 1
+                units = len(vals2) - 1
+                if units != k + 1:
+                    rep.fail("oracle", f"target = {T!r}, exactly the mass added by {k} unit(s): growth ended after {units} unit(s); the added mass {added[units - 1] if 0 < units <= len(added) else '?'} "
+                             f"{'does not exceed' if units <= k else 'exceeded'} the target{'' if units <= k else ' earlier'}",
+                             {"text": text, "seed": seed, "mode": "exact_hit", "k": k, "target": T}, expected=f"{k + 1} units", observed=f"{units} units")
+    return n
+
+
 def check(rep):
     coq = fw.coq_check("C07", ["SrcBond", "SrcCore", "SrcGen"])
     quick = rep.tier == "quick"
@@ -44,6 +108,7 @@ def check(rep):
             rep.fail("oracle", b, c.ident(), expected="stop right after the first unit whose added mass exceeds the target", observed=b)
         if c.run.targets:
             distinct.add((c.text, tuple(c.run.picks), tuple(c.run.targets)))
+    stats = {**stats, "exact_hit_probes": exact_hit_probe(rep, quick)}
     rep.coverage.update({"evaluations": len(cases), "molecules_checked": mols, "oracle_undecidable_skipped": skipped, "distinct_nontrivial": len(distinct),
                          "rule": "as C04 plus forced targets per stochastic object: below one unit / negative / n units +- 0.25 unit / 20-45 units; "
                                  "distinct_nontrivial = distinct (string, picks, targets) with at least one stochastic object decided by the oracle",
@@ -55,4 +120,18 @@ def check(rep):
 
 
 def replay(case):
+    c = case.get("case") or {}
+    if c.get("mode") == "exact_hit":
+        class _R:
+            def __init__(self):
+                self.n = 0
+
+            def fail(self, stage, what, ident, **kw):
+                if ident.get("text") == c["text"] and ident.get("k") == c["k"]:
+                    self.n += 1
+                    print("replay:", what)
+        r = _R()
+        exact_hit_probe(r, True)
+        print("exact-hit probe:", "fails" if r.n else "holds")
+        return 1 if r.n else 0
     return genrun.replay(case, lambda v, run: genrun.oracle_c07(v, run) or [])
